@@ -369,11 +369,14 @@ pub enum Enc {
     Inline, // whatever new_atom picks
     Heap,   // forced into u8_vec via new_concat(len, [nil, x, nil])
     View,   // a new_substr window into a larger heap atom
+    Mixed,  // cycle Inline / Heap / View per atom occurrence (same value in different representations)
 }
 pub const ENCS: [Enc; 3] = [Enc::Inline, Enc::Heap, Enc::View];
+pub const ENCS4: [Enc; 4] = [Enc::Inline, Enc::Heap, Enc::View, Enc::Mixed];
 
 pub fn mk_atom(a: &mut Allocator, b: &[u8], enc: Enc) -> NodePtr {
     match enc {
+        Enc::Mixed => unreachable!("resolved by the Builder"),
         Enc::Inline => a.new_atom(b).unwrap(),
         Enc::Heap => {
             if b.is_empty() {
@@ -399,6 +402,7 @@ pub struct Builder {
     pub sharing: Sharing,
     pub enc: Enc,
     memo: HashMap<T, NodePtr>,
+    counter: usize,
 }
 
 impl Builder {
@@ -407,6 +411,7 @@ impl Builder {
             sharing,
             enc,
             memo: HashMap::new(),
+            counter: 0,
         }
     }
     pub fn build(&mut self, a: &mut Allocator, t: &T) -> NodePtr {
@@ -434,7 +439,13 @@ impl Builder {
                     }
                     match t {
                         T::A(b) => {
-                            let n = mk_atom(a, b, self.enc);
+                            let enc = if self.enc == Enc::Mixed {
+                                self.counter += 1;
+                                ENCS[self.counter % 3]
+                            } else {
+                                self.enc
+                            };
+                            let n = mk_atom(a, b, enc);
                             if share {
                                 self.memo.insert(t.clone(), n);
                             }
